@@ -164,3 +164,26 @@ class Collection_members_c:
                     0 <= j and j < _i,
                     _yielded[n + j][0] == S[j]
                     and _yielded[n + j][1] == resource_at(posixpath.normpath(posixpath.join(self.relpath, S[j]))))))
+
+
+@contract("xandikos.web.StoreBasedCollection.get_member",
+          params={"self": "obj:xandikos.web.StoreBasedCollection", "name": "str"}, returns="opt[opaque:Resource]")
+class Collection_get_member_c:
+    """C01: a name addresses a member exactly when the listing shows it - a stored item of the
+    member map (never the collection's own metadata file or anything else in its directory) or
+    a sub-collection; everything else is KeyError (404)."""
+
+    def requires(self, name):
+        return name != ""
+
+    def raises_KeyError(self, name):
+        return name not in self.store.ghost_M and not any(name == s for s in sub_names(self.store))
+
+    def ensures(self, name, result):
+        M = self.store.ghost_M
+        return result == (object_resource(name, default_mime(name), M[name]) if name in M
+                          else resource_at(posixpath.normpath(posixpath.join(self.relpath, name))))
+
+    def inv_0(self, name, _i, _seq):
+        M = self.store.ghost_M
+        return lists(_seq, M) and forall("int", lambda j: implies(0 <= j and j < _i, keys_list(M)[j] != name))
